@@ -382,10 +382,18 @@ fn evaluate_single_inline_expression(
     let heap = Rc::new(RefCell::new(Heap::new()));
 
     // Convert inputs to Values
-    let inputs: IndexMap<String, _> = inputs_given
+    let inputs: IndexMap<String, _> = match inputs_given
         .iter()
-        .map(|(key, value)| (key.clone(), value.to_value(&mut heap.borrow_mut()).unwrap()))
-        .collect();
+        .map(|(key, value)| Ok((key.clone(), value.to_value(&mut heap.borrow_mut())?)))
+        .collect::<Result<_>>()
+    {
+        Ok(inputs) => inputs,
+        Err(e) => {
+            return ExpressionResult::Error {
+                error: format!("Invalid input: {}", e),
+            };
+        }
+    };
 
     let bindings = Rc::new(Environment::new());
 
